@@ -426,6 +426,7 @@ def C17(rep, prog, tier):
     preocf.accept_decision(rep, ex)
     cinf.encoding_relation(rep, ex)
     cinf.key_discipline(rep, ex)
+    cinf.query_names(rep, ex)
     cinf.minima_encoding(rep, ex)
     cinf.summation(rep, ex)
     preocf.world_literals(rep, ex)
